@@ -119,11 +119,13 @@ PROPS["C13"].update(dict(
 ))
 
 PROPS["C12"] = dict(
-    modules=["DdoModel.Props.C12"],
-    theorems=["Ddo.C12.expandAll_calls_ok", "Ddo.C12.expandOne_calls_ok", "Ddo.C12.relaxLayer_calls_ok", "Ddo.C12.mem_sortBy"],
-    stated_not_proved=["the whole-compilation protocol (depth argument of next_variable = layers since the problem root; domains only for the selected variable and states of the layer) as one theorem over buildLoop: evaluated by phiProtocol on every implementation log, not proved"],
-    level_text="For the diagram models (which reproduce the implementation's multiset of calls into user code exactly on every explored compilation) it is proved, for every input, that every transition / transition_cost / for_each_in_domain / fast_upper_bound call issued while expanding a layer is for the layer's variable, on a state of the layer, with dst = transition(src, d) and d in the domain; and that every relax call issued by a merge receives as merged the state just returned by merge over the merged-away states, as dst one of them, with an inbound arc's decision and current cost. The complete protocol predicate of the property (incl. the depth handed to next_variable and the per-layer domain discipline) is evaluated in Lean on the chronological log of every implementation run.",
-    level_note="Partial: the two call sites are proved coherent on the model; the whole-compilation statement is evaluated (phi) rather than proved. Trusted: recording wrappers around Problem / Relaxation in the harness.",
+    modules=["DdoModel.Props.C12", "DdoModel.Props.C12b"],
+    theorems=["Ddo.C12.expandAll_calls_ok", "Ddo.C12.expandOne_calls_ok", "Ddo.C12.relaxLayer_calls_ok", "Ddo.C12.mem_sortBy",
+              "Ddo.C12.buildLoop_protocol", "Ddo.C12.compile_protocol", "Ddo.C12.buildLoop_first_call", "Ddo.C12.nextVar_depths", "Ddo.C12.nextVar_depth_at",
+              "Ddo.C12.protocolOk_head", "Ddo.C12.protocolOk_cost", "Ddo.C12.protocolOk_domain", "Ddo.C12.protocolOk_merge", "Ddo.C12.protocolOk_relax", "Ddo.C12.bodyOk_iff"],
+    stated_not_proved=["the same protocol theorem on Pooled.lean (pooled diagram, incl. is_impacted_by calls): correspondence (exact equality of the call log) + phiProtocol on the implementation's log only"],
+    level_text="For the clean diagram model (LEL and frontier) the whole-compilation protocol is a theorem with no hypothesis at all (any Problem, Relaxation, ranking, compilation type, width - 0 included -, cache, dominance rule, cutoff, fuel): the chronological log of calls into user code is a sequence of layer blocks; block j opens with next_variable(root depth + j, states) - so the depth handed to next_variable is the number of layers since the problem root plus the depth of the sub-problem - and inside a block for_each_in_domain / fast_upper_bound are only called for the block's variable on a state of the layer (or the merged state), every transition follows the domain call of its state with a decision of that domain, every transition_cost immediately follows its transition with dst = transition(src, d), there is at most one merge per layer, over at least two states of the layer, and every relax call receives as merged the state just returned by merge, as dst one of the merged-away states, and as decision / cost exactly the decision and transition_cost of an arc created in the previous block (compile_protocol, through a loop invariant of buildLoop; 1200 lines of Lean). The states handed to next_variable in block j+1 are destinations of block j. The model is tied to the code by exact equality of the call log (as a multiset per compilation, order where the code's order is defined) on every explored compilation, and the protocol predicate is also evaluated in Lean on the chronological log of every implementation run, pooled diagram with long arcs included.",
+    level_note="Partial only in that the pooled diagram is covered by correspondence + phi, not by the theorem. Trusted: recording wrappers around Problem / Relaxation in the harness. MddProtocol.lean / C12b.lean were produced by a delegated proof session and are checked by the same lake build / axiom audit.",
     engines=MDD_ENGINES,
     trusted_base=MDD_TB,
     assumptions=["the harness families compute the relaxed cost from dst and merged (relax = cost + slack * |merged \\ dst|), so swapped arguments change results"],
